@@ -2,6 +2,7 @@
 mod checks;
 mod engine;
 mod mach;
+mod refmach;
 mod rom;
 
 use engine::Tier;
